@@ -38,6 +38,9 @@ def build(r, leaf_str=False, via="ctor", style=0, memo=None, _root=True):
     if ident is not None and r.get("f", -1) != -1 and via != "json":
         import puan as _p
         ident = _p.variable(ident, (r["f"], r["f"]))         # pre-fixed compound: variable with constant bounds
+    if isinstance(ident, str) and r["c"] not in ("Cfg", "Not") and via == "ctor" and (len(ident) + len(r["a"])) % 3 == 1:
+        import puan as _p
+        ident = _p.variable(ident)                          # the id handed over as a variable object (documented: variable or str)
     c = r["c"]
     if via == "json":
         # the document is parsed twice (a caller may keep and re-use its document): the second result is the one that is used
